@@ -3,9 +3,11 @@ package main
 import (
 	"encoding/json"
 	"fmt"
+	"math/big"
 	"math/rand"
 	"regexp"
 	"sort"
+	"strconv"
 	"strings"
 	"unicode/utf8"
 
@@ -32,9 +34,10 @@ type c09Diff struct {
 
 func init() {
 	register(&Prop{ID: "C09", Run: c09Run,
-		Rule: "seq: a generated document (member names from a path-safe pool incl. the numerals '0','1'; a second pool holds arbitrary text: non-ASCII names, spaces, dots, '~' and '/', written into the pointer string with ~0/~1) and 10–40 operation objects generated against the evolving document " +
+		Rule: "seq: a generated document (member names from a path-safe pool incl. the numerals '0','1'; a second pool holds arbitrary text: non-ASCII names, spaces, dots, percent-escapes, '#', '+', backslash, '~' and '/', written into the pointer string with ~0/~1) and 10–40 operation objects generated against the evolving document " +
 			"(evolved with the Go reference interpreter): existing locations, neighbours (other member, index in range / one past / far past), children of leaves, deep non-existent locations, " +
-			"non-numeric and negative tokens against lists, missing from/value/path, unknown op, move onto itself / into own descendant / within one list, test with the present and with a near-miss value; " +
+			"non-numeric and negative tokens against lists (a fixed pool; canonical numerals of 10-65 digits at and around 2^31 .. 2^128, incl. B+k with k a valid index of the very list; element-selector look-alikes written from the list's own content: " +
+			"member name, value, name=value, name:value, name==value, [name=value], [?(@.name=='value')], * — as last token and in the middle of an otherwise existing location), missing from/value/path, unknown op, move onto itself / into own descendant / within one list, test with the present, a mutated and a near-miss value (neighbouring integer — also beyond 2^53 —, the same numeral in another number type, the same text as string / number / boolean); " +
 			"values are arbitrary nodes. Applied one by one through patch.Do with a fresh OpObj built by patch.ParsePath (via=do) or through pipeline.PatchOp (via=pipeline); " +
 			"after every successful copy a probe edit is made inside the copy and the source is read back. diff: two documents, xform.DiffMod2PatchOp(diff.Diff(L,R)) applied to R. " +
 			"Non-trivial: at least one step succeeds and one fails, or a list is edited. distinct = distinct canonical case JSON.",
@@ -108,7 +111,9 @@ func c09Gen() *DocGen {
 
 // c09WideKeys: member names as documents in the wild have them — non-ASCII text (2-, 3- and 4-byte runes), spaces,
 // dots, and the two characters a pointer string has to escape — next to a few plain ones.
-var c09WideKeys = []string{"ü", "größe", "naïve", "ключ", "日本", "😀", "é~/", "a b", " ", "x.y", "a/b", "/", "~", "~0", "~1", "a~b", "m~/n", "0", "1", "a", "k1"}
+// Also names that carry the escape syntax of a neighbouring notation (percent-encoding as in the URI fragment form of
+// a pointer, RFC 6901 section 6; backslash; entity; '#', '+'): in the string representation all of these are plain text.
+var c09WideKeys = []string{"a%2Fb", "%41", "a%20b", "100%25", "%7E0", "%", "50%", "a+b", "#", "#a", "a\\/b", "&amp;", "A", "a b%20", "ü", "größe", "naïve", "ключ", "日本", "😀", "é~/", "a b", " ", "x.y", "a/b", "/", "~", "~0", "~1", "a~b", "m~/n", "0", "1", "a", "k1"}
 
 func c09WideGen() *DocGen {
 	g := c09Gen()
@@ -153,6 +158,71 @@ func c09Len(w W) int {
 
 var c09BadListToks = []string{"x", "-1", "-2", "1x", "k1", "x-y", "--1", "_", "0x1", "1e0", "1-", "-7"}
 
+// c09WrapBases: the powers at which fixed-width integer arithmetic wraps around.
+var c09WrapBases = func() []*big.Int {
+	pow := func(e int64) *big.Int { return new(big.Int).Exp(big.NewInt(2), big.NewInt(e), nil) }
+	return []*big.Int{pow(31), pow(32), pow(63), pow(64), pow(65), new(big.Int).Mul(big.NewInt(3), pow(64)), new(big.Int).Mul(big.NewInt(10), pow(64)), pow(128)}
+}()
+
+// c09OddListTok draws a reference token that designates NO element of the array arr (RFC 6901 section 4: below an
+// array only a canonical index smaller than the length, or "-", means anything; the one exception is an element's
+// own text that happens to be a numeral — then it is an ordinary index and the reference treats it as one): every
+// operation through it must fail.  Three classes:
+//   - canonical indices far out of range: the numerals at which fixed-width integers wrap around and their
+//     neighbours, and B+k for such a power B and k an index that is (nearly) valid for this very array;
+//   - non-numeric tokens written from the array's own content the way other path languages select an element by
+//     identity (member name, value, name=value, name:value, name==value, [name=value], [?(@.name=='value')], *),
+//     aimed at the element with index at (any element when at is out of range);
+//   - the fixed malformed pool.
+func c09OddListTok(r *rand.Rand, arrW W, at int) string {
+	arr, _ := arrW.([]any)
+	switch k := r.Intn(10); {
+	case k < 2:
+		return pick(r, c10WrapNumerals)
+	case k < 4:
+		d := r.Intn(len(arr) + 2)
+		if at >= 0 && at < len(arr) && r.Intn(2) == 0 {
+			d = at
+		}
+		return new(big.Int).Add(pick(r, c09WrapBases), big.NewInt(int64(d))).String()
+	case k < 9 && len(arr) > 0:
+		if at < 0 || at >= len(arr) || r.Intn(4) == 0 {
+			at = r.Intn(len(arr))
+		}
+		obj, isObj := c09RefObject(arr[at])
+		if !isObj || len(obj) == 0 {
+			if lf, ok := arr[at].(map[string]any); ok && !isObj {
+				return fmt.Sprint(lf["v"]) + pick(r, []string{"", "=", "*"}) // the element's own text
+			}
+			return pick(r, []string{"*", "first", "last", "#", "[]", "?"})
+		}
+		name := pick(r, sortedKeys(obj))
+		val := "x"
+		if lf, ok := obj[name].(map[string]any); ok {
+			if _, isCont := lf["m"]; !isCont {
+				val = fmt.Sprint(lf["v"])
+			}
+		}
+		switch r.Intn(9) {
+		case 0:
+			return name
+		case 1:
+			return name + ":" + val
+		case 2:
+			return name + "==" + val
+		case 3:
+			return "[" + name + "=" + val + "]"
+		case 4:
+			return "[?(@." + name + "=='" + val + "')]"
+		case 5:
+			return val
+		default:
+			return name + "=" + val
+		}
+	}
+	return pick(r, c09BadListToks)
+}
+
 // c09GenPath draws a location relative to the current document.
 func c09GenPath(r *rand.Rand, g *DocGen, cur W) []string {
 	var locs []c09Loc
@@ -165,14 +235,32 @@ func c09GenPath(r *rand.Rand, g *DocGen, cur W) []string {
 		return p
 	}
 	l := pick(r, locs)
-	switch k := r.Intn(20); {
+	switch k := r.Intn(23); {
+	case k >= 20: // an existing location whose walk crosses a list, with that index token replaced by a non-index one
+		p := c09Clone(l.p)
+		var at []int
+		for i := range p {
+			if pn, _ := c09RefGet(cur, p[:i]); pn != nil {
+				if _, isList := pn.([]any); isList {
+					at = append(at, i)
+				}
+			}
+		}
+		if len(at) == 0 {
+			return p
+		}
+		i := pick(r, at)
+		pn, _ := c09RefGet(cur, p[:i])
+		idx, _ := c09RefIndex(p[i])
+		p[i] = c09OddListTok(r, pn, idx)
+		return p
 	case k < 6: // the location itself
 		return l.p
 	case k < 11: // below it
 		p := c09Clone(l.p)
 		switch l.kind {
 		case "list":
-			switch r.Intn(6) {
+			switch r.Intn(9) {
 			case 0:
 				return append(p, fmt.Sprint(l.n)) // one past the last: append position
 			case 1:
@@ -181,6 +269,9 @@ func c09GenPath(r *rand.Rand, g *DocGen, cur W) []string {
 				return append(p, fmt.Sprint(l.n+1+r.Intn(6)))
 			case 3:
 				return append(p, pick(r, c09BadListToks))
+			case 4, 5:
+				arr, _ := c09RefGet(cur, l.p)
+				return append(p, c09OddListTok(r, arr, -1))
 			default:
 				return append(p, fmt.Sprint(r.Intn(l.n+1)))
 			}
@@ -194,13 +285,17 @@ func c09GenPath(r *rand.Rand, g *DocGen, cur W) []string {
 		par := p[:len(p)-1]
 		pn, _ := c09RefGet(cur, par)
 		if arr, ok := pn.([]any); ok {
-			switch r.Intn(5) {
+			switch r.Intn(7) {
 			case 0:
 				p[len(p)-1] = fmt.Sprint(len(arr))
 			case 1:
 				p[len(p)-1] = fmt.Sprint(len(arr) + 1 + r.Intn(4))
 			case 2:
 				p[len(p)-1] = pick(r, c09BadListToks)
+			case 3, 4:
+				// a non-index token aimed at the element the location addresses
+				at, _ := c09RefIndex(p[len(p)-1])
+				p[len(p)-1] = c09OddListTok(r, pn, at)
 			default:
 				p[len(p)-1] = fmt.Sprint(r.Intn(len(arr) + 1))
 			}
@@ -228,7 +323,21 @@ func c09GenOp(r *rand.Rand, g *DocGen, cur W) c09Op {
 		}
 		return pick(r, locs).p
 	}
-	value := func() W { return g.Node(r, 1+r.Intn(3)) }
+	hasInt := false
+	for _, t := range g.Types {
+		hasInt = hasInt || t == "int"
+	}
+	value := func() W {
+		if hasInt && r.Intn(15) == 0 {
+			// integers beyond 2^53: neighbours that a detour through float64 cannot tell apart
+			n := 1<<53 + r.Intn(4)
+			if r.Intn(4) == 0 {
+				n = -n
+			}
+			return scalarWire(n)
+		}
+		return g.Node(r, 1+r.Intn(3))
+	}
 	var o c09Op
 	switch k := r.Intn(100); {
 	case k < 30:
@@ -275,8 +384,11 @@ func c09GenOp(r *rand.Rand, g *DocGen, cur W) c09Op {
 		o = c09Op{Op: "test", Path: c09GenPath(r, g, cur)}
 		if v, ok := c09RefGet(cur, o.Path); ok && r.Intn(4) > 0 {
 			o.Value = deepCopyW(v)
-			if r.Intn(3) == 0 {
+			switch r.Intn(6) {
+			case 0, 1:
 				o.Value = g.Mutate(r, o.Value)
+			case 2:
+				o.Value = c09NearMiss(r, o.Value) // "failed test": a value that is nearly, but not, the one present
 			}
 		} else {
 			o.Value = value()
@@ -299,6 +411,85 @@ func c09GenOp(r *rand.Rand, g *DocGen, cur W) c09Op {
 		}
 	}
 	return o
+}
+
+// c09NearMiss: for a scalar, a DIFFERENT value that is as close to it as values get — the neighbouring integer, the
+// same numeral in another number type (int / int64 / float64), the same text as a string or the string's text as a
+// number / boolean; for a composite, the same composite with one scalar replaced that way.
+func c09NearMiss(r *rand.Rand, v W) W {
+	if !isWireLeaf(v) {
+		var slots [][]any
+		wireLeafSlots(v, nil, &slots)
+		if len(slots) == 0 {
+			return v
+		}
+		sl := pick(r, slots)
+		cur := v
+		for _, s := range sl {
+			switch x := s.(type) {
+			case string:
+				c, _ := wireCont(cur)
+				cur = c[x]
+			default:
+				i, _ := s.(int)
+				if f, ok := s.(float64); ok {
+					i = int(f)
+				}
+				cur = cur.([]any)[i]
+			}
+		}
+		if !isWireLeaf(cur) {
+			return v
+		}
+		return wireSetSlot(deepCopyW(v), sl, c09NearMiss(r, cur))
+	}
+	m := v.(map[string]any)
+	t, _ := m["t"].(string)
+	txt, _ := m["v"].(string)
+	mk := func(t, v string) W { return map[string]any{"t": t, "v": v} }
+	switch t {
+	case "int", "int64":
+		n, err := strconv.ParseInt(txt, 10, 64)
+		if err != nil {
+			return mk("string", txt)
+		}
+		switch r.Intn(6) {
+		case 0:
+			return mk(t, fmt.Sprint(n+1))
+		case 1:
+			return mk(t, fmt.Sprint(n-1))
+		case 2:
+			return scalarWire(float64(n))
+		case 3:
+			return mk(map[string]string{"int": "int64", "int64": "int"}[t], txt)
+		case 4:
+			return mk("string", txt)
+		default:
+			return mk(t, fmt.Sprint(-n-1))
+		}
+	case "float64":
+		f, _ := strconv.ParseFloat(txt, 64)
+		if f == float64(int64(f)) && f > -1e18 && f < 1e18 && r.Intn(2) == 0 {
+			return scalarWire(int(f))
+		}
+		if r.Intn(2) == 0 {
+			return mk("string", txt)
+		}
+		return scalarWire(f + 1)
+	case "string":
+		if n, err := strconv.Atoi(txt); err == nil && fmt.Sprint(n) == txt {
+			return scalarWire(n)
+		}
+		if txt == "true" || txt == "false" {
+			return scalarWire(txt == "true")
+		}
+		return mk("string", txt+" ")
+	case "bool":
+		return mk("string", txt)
+	case "nil":
+		return pick(r, []W{mk("string", ""), mk("string", "<nil>"), mk("string", "null"), scalarWire(0), scalarWire(false)})
+	}
+	return mk("string", txt)
 }
 
 func c09GenSeq(r *rand.Rand, g *DocGen, n int, valueFrom bool) c09Seq {
